@@ -133,7 +133,7 @@ Record observation := mk_observation {
   ob_xlabel : text; ob_ylabel : text; ob_title : text;
   ob_res_xlabel : option text;
   ob_legend : option (list text);
-  ob_returned : list (list nat * list Q) }.          (* what Plot.hist returned, per histogram, in order *)
+  ob_returned : list (list Q * list Q) }.          (* what Plot.hist returned, per histogram, in order *)
 
 Definition status_eqb (a b : status) : bool :=
   match a, b with
@@ -142,9 +142,9 @@ Definition status_eqb (a b : status) : bool :=
   | _, _ => false
   end.
 
-Definition returned_close (a b : list nat * list Q) : bool :=
-  list_eqb Nat.eqb (fst a) (fst b) && qlc (snd a) (snd b).
-Definition returns_of (objs : list obj) : list (option (list nat * list Q)) :=
+Definition returned_close (a b : list Q * list Q) : bool :=
+  qlc (fst a) (fst b) && qlc (snd a) (snd b).
+Definition returns_of (objs : list obj) : list (option (list Q * list Q)) :=
   flat_map (fun o => match o with OHist h => [hist_returned h] | _ => [] end) objs.
 
 Definition check_case (c : settings * list cobj * observation) : bool :=
